@@ -27,14 +27,15 @@ CONSTANTS Kinds,       \* alphabet of doctest kinds for this run
 
 AllKinds == {"warns", "failcompile", "faildirective", "needell", "pass", "failout", "failexc", "skipall", "skippart", "expexc", "comment", "disabled", "disabledfail",
              "bind", "probe", "rebind", "readg", "leaveskip", "leavereq", "reportstyle", "trail", "swapout", "filters",
-             "reqsub", "reqpkg"}     \* requires a missing submodule of an existing package / requires that package
+             "reqsub", "reqpkg",     \* requires a missing submodule of an existing package / requires that package
+             "bumpfail"}             \* G = G + 1 on the module's global G (1), then wants 3: fails alone - passes if its own earlier binding survived
 
 Disabled(k) == k \in {"disabled", "disabledfail"}
 \* outcome of the doctest run alone in a fresh process with environment e
 Solo3(k, e, o) ==
   CASE k = "faildirective" -> "failed"                      \* directives are applied before the skip test
     [] o \in {"skip", "req"} -> "skipped"                   \* +SKIP / +REQUIRES(unmet) as default option: nothing runs
-    [] k \in {"failout", "failexc", "disabledfail", "failcompile", "faildirective"} -> "failed"   \* the last two fail before any part runs
+    [] k \in {"failout", "failexc", "disabledfail", "failcompile", "faildirective", "bumpfail"} -> "failed"   \* the last two fail before any part runs
     [] k = "needell" -> (IF o = "noell" THEN "failed" ELSE "passed")   \* want with "..." needs ELLIPSIS
     [] k \in {"skipall", "comment", "reqsub"} -> "skipped"       \* reqsub: its requirement is unmet, nothing runs
     [] k = "trail" -> (IF e = 1 THEN "passed" ELSE "failed")
@@ -167,6 +168,7 @@ HistRun ==
                 ELSE IF k = "trail" /\ env = 0 /\ staleNow THEN "passed"
                 ELSE IF k = "warns" /\ filtErr THEN "failed"                 \* its warning became an exception
                 ELSE IF k = "reqpkg" /\ "PKGMISSING" \in leaked THEN "skipped" \* an earlier negative answer was recorded for the package too
+                ELSE IF k = "bumpfail" /\ i \in stale THEN "passed"            \* the namespace of its failed earlier run was still there
                 ELSE Solo(k, env)
        IN /\ hist' = Append(hist, <<i, env, o>>)
           /\ leaked' = IF k = "bind" /\ (aliased \/ "NoNamespaceIsolation" \in Deviation) /\ ~skippedByDefault THEN leaked \cup {"N"}
@@ -176,7 +178,8 @@ HistRun ==
           /\ defSkip' = IF k = "leaveskip" /\ "SharedRunstate" \in Deviation THEN TRUE ELSE defSkip
           /\ defReq' = IF k = "leavereq" /\ "ShallowDefaults" \in Deviation THEN TRUE ELSE defReq
           /\ filtErr' = (filtErr \/ (k = "filters" /\ "NoFilterRestore" \in Deviation /\ ~skippedByDefault))
-          /\ stale' = IF k = "trail" /\ env = 1 /\ ~skippedByDefault THEN stale \cup {i}
+          /\ stale' = IF k = "bumpfail" /\ "NamespaceSurvivesFailure" \in Deviation /\ ~skippedByDefault THEN stale \cup {i}
+                      ELSE IF k = "trail" /\ env = 1 /\ ~skippedByDefault THEN stale \cup {i}
                       ELSE IF k = "trail" THEN stale \ {i} ELSE stale
   /\ UNCHANGED <<mod, opt, mode, cmd, front, pos, queue, verdict, nP, nF, nS, nT, failedSeq, exitCode, listed, env>>
 
